@@ -3,6 +3,7 @@ package checks
 import (
 	"encoding/json"
 	"fmt"
+	"runtime"
 	"runtime/debug"
 	"strings"
 	"time"
@@ -270,6 +271,7 @@ var c05Tokens = []string{
 	"(", ")", "[", "]", "{", "}", ",", ":", ";", "\n", ".", "=", "==", "+=", "+", "-", "*", "/", "%", "!", "!=", "<", "&&", "||", "|", "# c\n", "é", "\x80",
 	"\u2002", "\u00a0", "\u3000", "\u2028", "\u0085", // Unicode blanks (not blanks of this language)
 	"brea\u212a", "\u0130f", // letters whose lower case is ASCII: the token still spans its own bytes
+	"\u540d", "\U0001d4b3", // a three-byte and a four-byte letter
 }
 
 func c05ValidPrograms() []string {
@@ -331,8 +333,8 @@ func c05Run(w *run.Worker) {
 	trec = func(n int) {
 		if n > 0 && w.Take() {
 			c05One(w, "tokens", strings.Join(toks, " "))
-			if n <= 2 {
-				c05One(w, "tokens", strings.Join(toks, ""))
+			if n <= 3 {
+				c05One(w, "tokens", strings.Join(toks, "")) // written without blanks in between
 			}
 		}
 		if n == maxTok || w.Expired() {
@@ -441,6 +443,68 @@ func c05Run(w *run.Worker) {
 			}
 		}
 	}
+	// (D2) growth: the memory a parse allocates grows linearly with the text. For each wide or deep
+	// form the parse of 16n elements may allocate at most 64 times what the parse of n elements does
+	// (doubling buffers give at most 32); a quadratic diagnostic or copy gives 256. Allocation counts
+	// do not depend on machine load, so this is not a timing oracle.
+	{
+		chain := func(n int) string { return "a" + strings.Repeat(" + a", n) }
+		forms := []func(int) string{
+			func(n int) string { return strings.Repeat("(", n) + "a" + strings.Repeat(")", n) },
+			func(n int) string { return "x = " + strings.Repeat("[", n) + "a" + strings.Repeat("]", n) },
+			func(n int) string { return "x = " + strings.Repeat(`{"k":`, n) + "1" + strings.Repeat("}", n) },
+			func(n int) string { return strings.Repeat("-", n) + "a" },
+			func(n int) string { return strings.Repeat("f(", n) + "a" + strings.Repeat(")", n) },
+			func(n int) string { return "a" + strings.Repeat("[0]", n) },
+			func(n int) string { return "a" + strings.Repeat(".b", n) },
+			func(n int) string { return strings.Repeat("if a {", n) + strings.Repeat("}", n) },
+			func(n int) string { return "x = " + chain(n) },
+			func(n int) string { return "x = [" + strings.Repeat("a, ", n) + "a]" },
+			func(n int) string { return "f(" + strings.Repeat("a, ", n) + "a)" },
+			func(n int) string { return strings.Repeat("a = 1\n", n) },
+			// wide expressions in the positions whose diagnostics mention them
+			func(n int) string { return "for " + chain(n) + " in x {}" },
+			func(n int) string { return "for x in " + chain(n) + " {}" },
+			func(n int) string { return "for " + chain(n) + " {}" },
+			func(n int) string { return "for (" + chain(n) + ") in x {}" },
+			func(n int) string { return "for a" + strings.Repeat("[0]", n) + " in x {}" },
+			func(n int) string { return "for a" + strings.Repeat(".b", n) + " in x {}" },
+			func(n int) string { return chain(n) + " = 1" },
+			func(n int) string { return chain(n) + " += 1" },
+			func(n int) string { return "f(" + chain(n) + " = 1)" },
+			func(n int) string { return "x = {" + chain(n) + ": 1}" },
+			func(n int) string { return chain(n) + "(1)" },
+			func(n int) string { return "x = a[" + chain(n) + ":" + chain(n) + "]" },
+			func(n int) string { return "if " + chain(n) + " { } elif " + chain(n) + " { }" },
+			func(n int) string { return "x = " + chain(n) + " )" },
+			func(n int) string { return "x = \"" + strings.Repeat("\\q", n) + "\"" },
+		}
+		allocOf := func(src string) uint64 {
+			var m0, m1 runtime.MemStats
+			runtime.ReadMemStats(&m0)
+			func() {
+				defer func() { _ = recover() }()
+				_, _ = parser.ParsePipeline("s.p", src)
+			}()
+			runtime.ReadMemStats(&m1)
+			return m1.TotalAlloc - m0.TotalAlloc
+		}
+		const n0 = 1500
+		for fi, f := range forms {
+			if !w.Take() {
+				continue
+			}
+			w.Eval()
+			_ = allocOf(f(8)) // warm the pools
+			small, big := allocOf(f(n0)), allocOf(f(16*n0))
+			w.OutcomeHash(hash2("growth", fmt.Sprint(fi), 0))
+			if big > 64*small+(8<<20) {
+				src := f(16)
+				w.Violate("C05:growth:allocation-grows-faster-than-the-text", fmt.Sprintf("parsing this form with %d elements allocates %d bytes, with %d elements %d bytes (%.0f times as much for 16 times the text): time and memory are not linear in the size of the text, a large text is never answered\nform (16 elements): %q",
+					n0, small, 16*n0, big, float64(big)/float64(small), src), mkC05(src))
+			}
+		}
+	}
 	if w.Shard == 0 {
 		w.Sample(map[string]any{"bytes": "every byte string of length <= bound over a 35-byte alphabet, e.g. \"-0x\"", "tokens": "every sequence of <=3 tokens of a 56-token alphabet, e.g. \"for a in 1e\""})
 	}
@@ -460,8 +524,8 @@ func init() {
 	run.Register(&run.Check{
 		ID:    "C05",
 		Level: "model_checking",
-		Rule: "(A) every byte string of length <=4 (thorough <=5) over a 36-byte alphabet (one byte per lexer branch, incl. CR and invalid UTF-8 bytes); (B) every sequence of <=3 (thorough <=4) tokens from a 63-token alphabet (incl. Unicode blanks and letters that case-fold to ASCII) (every token kind and keyword, malformed numbers, unterminated strings, bad escapes); " +
-			"(C) 31 valid programs covering every production x every token position x {delete, duplicate, replace by each of the 56 tokens}, 1 deviation (thorough 2); (E) every string body of <=4 (thorough <=5) symbols over {a LF CR backslash \" ' ` é 0x80 n} between each of the 5 quote styles, as an assignment and as a call argument followed by another line; (D) nesting depth 10/100/10^4 (thorough 10^5) of every bracket, unary operator, call, index, attribute, block; " +
+		Rule: "(A) every byte string of length <=4 (thorough <=5) over a 36-byte alphabet (one byte per lexer branch, incl. CR and invalid UTF-8 bytes); (B) every sequence of <=3 (thorough <=4) tokens from a 65-token alphabet (incl. Unicode blanks, letters that case-fold to ASCII, two-, three- and four-byte letters), written with and (up to 3 tokens) without blanks in between (every token kind and keyword, malformed numbers, unterminated strings, bad escapes); " +
+			"(C) 31 valid programs covering every production x every token position x {delete, duplicate, replace by each of the 56 tokens}, 1 deviation (thorough 2); (E) every string body of <=4 (thorough <=5) symbols over {a LF CR backslash \" ' ` é 0x80 n} between each of the 5 quote styles, as an assignment and as a call argument followed by another line; (D) nesting depth 10/100/10^4 (thorough 10^5) of every bracket, unary operator, call, index, attribute, block; (D2) 27 wide or deep forms (incl. long expressions in the positions whose diagnostics mention them: for-in variable, iterable, assignment target, named argument, map key, callee) at 1500 and 24000 elements: the bytes allocated by the parse grow at most 64-fold; " +
 			"oracle: ParsePipeline returns a tree xor a PlError naming the script with 0 <= offset <= len and consistent line/column, never (nil,nil), never a position-less error; a rejected text offered again under another script name gives the same diagnostic naming that script; the exported lexer's items tile the source (gaps only blanks)",
 		Assumptions: []string{"a worker that dies or stops making progress is reported with the index of the text it was parsing"},
 		Run:            c05Run,
